@@ -1,8 +1,8 @@
 SPECIFICATION Spec
 CONSTANTS
-  Patterns <- PUp
+  Patterns <- PQCls
   Ids = {"i1", "i2", "i3"}
-  Haystacks <- H4
+  Haystacks <- ProbeSet
   KeepSets = {{"i2", "i3"}}
   Limits = {2}
   Levels = {99}
